@@ -222,7 +222,7 @@ func c03Run(r *run.Runner, c c03Case) {
 			for j := i + 1; j < n; j++ {
 				cl := oracle.CompareURI(urls[i], urls[j])
 				classes[cl.String()]++
-				if cl == oracle.Distinct {
+				if cl == oracle.Distinct && (i+j)%8 == 0 { // 1/8 subsample keeps the hash set small
 					r.Nontrivial(oracle.KeyOf(urls[i]).Strict + " | " + oracle.KeyOf(urls[j]).Strict)
 				}
 			}
